@@ -3,12 +3,15 @@ from fractions import Fraction as F
 import common as C
 
 
+DYADIC_ONLY = False   # properties whose implementation mixes floats in set this (exact on dyadic values only)
+
+
 def coef(rng, zero_ok=False, ints=False):
     while True:
         r = rng.random()
         if ints or r < 0.55:
             v = F(rng.randint(-9, 9))
-        elif r < 0.85:
+        elif r < 0.85 or DYADIC_ONLY:
             v = F(rng.randint(-24, 24), rng.choice([2, 4, 8]))
         else:
             v = F(rng.randint(-5, 5), rng.choice([3, 5]))
